@@ -69,6 +69,12 @@ def gen_spec(r, seed, deterministic=False):
     if have_param and not any(c.get("use_param") or c["kind"] == "paramcond" for c in conds):
         conds.append({"kind": "paramcond", "weight": 1.0, "model": 0})
     spec["conds"] = conds
+    if r.random() < 0.35:
+        # several conditions keep the library's default name, or share a user-given one
+        nm = r.choice(("default", "default", "same"))
+        for c in conds:
+            if r.random() < 0.8:
+                c["name"] = nm
     cls = r.choice(("SGD", "SGD", "Adam", "Adam", "AdamW", "RMSprop", "Adagrad"))
     args = {}
     if cls == "SGD" and r.random() < 0.5:
